@@ -99,7 +99,12 @@ type Check struct {
 	// CaseTimeout: a case still running after this is re-run alone; a second
 	// timeout (at 3x) is a hang violation. 0 = 120 s.
 	CaseTimeout time.Duration
-	Chunk       int64 // cases per chunk (0 = auto)
+	// SlowIsNotHang: a case that exceeds CaseTimeout (also alone, at 3x) is
+	// counted as not covered instead of being reported as a hang. For checks
+	// whose cases are schedule searches: their hang oracle is the scheduler's
+	// deadlock detection, never the wall clock.
+	SlowIsNotHang bool
+	Chunk         int64 // cases per chunk (0 = auto)
 	Workers     int   // 0 = NumCPU
 	WorkerEnv   []string
 	// MaxSamples literal samples kept in evidence.
@@ -799,6 +804,13 @@ func parent(c *Check, tier string) int {
 					// confirm alone with 3x the timeout before believing it
 					r2, stderr2, to2 := runSingle(c, tier, curCase, 3*caseTimeout)
 					switch {
+					case to2 && c.SlowIsNotHang:
+						// a search that is merely slow (the controlled scheduler
+						// detects real hangs itself, as deadlocks): inconclusive
+						co.Cases = 0
+						co.Capped = 1
+						co.Counters["cases_cut_by_the_case_timeout_(inconclusive)"]++
+						fmt.Printf("CASE-TIMEOUT (case %d did not finish within %v, nor within %v alone; counted as not covered, not reported)\n", curCase, caseTimeout, 3*caseTimeout)
 					case to2:
 						co.Violations = append(co.Violations, Violation{Class: "hang", Msg: fmt.Sprintf("case did not finish within %v (and %v alone)", caseTimeout, 3*caseTimeout), Idx: curCase})
 						co.Outcomes["hang"]++
